@@ -103,7 +103,8 @@ class CanaryClassK3:
 
 def environment():
     s, t = CanaryClassK3(), CanaryClassK3()
-    return {"s": s, "t": t, "lst": [s, 1], "tup": (s, t), "d": {"k": s, "a": s, 0: s}, "from": s, "to": t, "k": s, "a": s}
+    return {"s": s, "t": t, "lst": [s, 1], "tup": (s, t), "d": {"k": s, "a": s, 0: s}, "from": s, "to": t, "k": s, "a": s,
+            "n": Inner()}
 
 
 _installed = [False]
